@@ -24,6 +24,7 @@ class Env:
         self.Dist = z3.Function('Dist', z3.IntSort(), z3.IntSort(), z3.IntSort())
         self.activity_cost_type = 'SimpleActivityCost'
         self._closures = None
+        self.progs = [prog]            # all programs closures / trait defaults are looked up in (cross-crate: add the siblings)
         self.matrix_apps = set()
         self.allow_negative_matrix = False
 
@@ -92,11 +93,12 @@ class Env:
     def closure_fn(self, prog, closure_text):
         if self._closures is None:
             self._closures = {}
-            for name, f in prog.functions.items():
-                if '{closure#' in name:
-                    m = re.search(r'\{closure@[^}]*\}', f.header)
-                    if m:
-                        self._closures.setdefault(m.group(0), f)
+            for pr in self.progs:
+                for name, f in pr.functions.items():
+                    if '{closure#' in name:
+                        m = re.search(r'\{closure@[^}]*\}', f.header)
+                        if m:
+                            self._closures.setdefault(m.group(0), f)
         f = self._closures.get(closure_text)
         if f is None:
             raise Inconclusive(f'closure body not found for {closure_text}')
@@ -134,7 +136,7 @@ class Env:
         return fn(engine, st, args)
 
     def _trait_default(self, trait, method):
-        cands = [f for name, f in self.prog.functions.items() if name.endswith(f'{trait}::{method}')]
+        cands = [f for pr in self.progs for name, f in pr.functions.items() if name.endswith(f'{trait}::{method}')]
         if len(cands) != 1:
             raise Inconclusive(f'default method {trait}::{method} not found ({len(cands)})')
         return cands[0]
